@@ -25,17 +25,23 @@ T3 == {M(<<>>, "any", <<>>, <<>>), M(<<<<4, 0, 0>>>>, "any", <<>>, <<>>), M(<<<<
        M(<<<<4, 4, 2>>>>, "ext", <<>>, <<>>), M(<<<<4, 4, 2>>>>, "ext", <<<<4, 8, 2>>>>, <<>>),
        M(<<<<4, 5, 4>>>>, "same", <<>>, <<>>), M(<<<<4, 4, 2>>>>, "ext", <<<<4, 9, 4>>>>, <<7>>), M(<<>>, "same", <<<<4, 0, 0>>>>, <<>>)}
          \cup (IF Big = 1 THEN T2 ELSE {})
-Cfg(cs, d) == [chains |-> cs, def |-> d]
+Cfg(cs, d) == [chains |-> cs, def |-> d, wild |-> TRUE]
+Specific(S) == {[c EXCEPT !.wild = FALSE] : c \in S}
+\* tuples for the pairs on a listener bound to a specific address
+T1s == {M(d, s, p, <<>>) : d \in {<<>>, <<<<4, 4, 2>>>>, <<<<4, 5, 4>>>>}, s \in Sts, p \in {<<>>, <<<<4, 9, 4>>>>}}
 Group(s) ==
   CASE s = "c0" -> {Cfg(<<>>, d) : d \in BOOLEAN} \cup {Cfg(<<a>>, d) : a \in T1 \cup T2, d \in BOOLEAN}
     [] s = "c2a" -> {Cfg(<<a, b>>, TRUE) : a, b \in T1}
     [] s = "c2b" -> {Cfg(<<a, b>>, FALSE) : a \in T1, b \in T2} \cup {Cfg(<<a, b>>, TRUE) : a \in T2, b \in T1 \cup T2}
     [] s = "c3a" -> {Cfg(<<a, b, c>>, FALSE) : a, b, c \in T3}
+    [] s = "s0" -> Specific({Cfg(<<a>>, d) : a \in T1 \cup T2, d \in BOOLEAN})
+    [] s = "s2" -> Specific({Cfg(<<a, b>>, TRUE) : a, b \in T1s} \cup {Cfg(<<a, b>>, FALSE) : a \in T2, b \in T1s \cup T2})
+    [] s = "s3" -> Specific({Cfg(<<a, b, c>>, FALSE) : a, b, c \in T3})
     [] OTHER -> {}
 Lookups == {[f |-> f, dst |-> d, src |-> s, port |-> p] :
               f \in {4, 6}, d \in {4, 5, 13} \cup (IF Big = 1 THEN {6} ELSE {}),
               s \in {5, 8, 9, 14, LO} \cup (IF Big = 1 THEN {10} ELSE {}), p \in {7, 9}}
-Init == (kind = "seed" /\ x \in {"c0", "c2a", "c2b", "c3a"}) \/ (kind = "lk" /\ x \in Lookups)
+Init == (kind = "seed" /\ x \in {"c0", "c2a", "c2b", "c3a", "s0", "s2", "s3"}) \/ (kind = "lk" /\ x \in Lookups)
 Next == kind = "seed" /\ kind' = "cfg" /\ x' \in Group(x)
 
 IsCfg == kind = "cfg"
@@ -45,19 +51,20 @@ IsCfg == kind = "cfg"
 I_MostSpecific ==
   (IsCfg /\ ~Ambiguous(x)) => \A lk \in Lookups :
      LET cs == x.chains
-         F == Final(cs, lk)
-         r == IF F # {} THEN CHOOSE i \in F : TRUE ELSE IF x.def THEN 0 ELSE -1
+         F == Final(cs, lk, x.wild)
+         r == IF Cardinality(F) > 1 THEN -2 ELSE IF F # {} THEN CHOOSE i \in F : TRUE ELSE IF x.def THEN 0 ELSE -1
+         \* on a specific-address listener every chain counts as an equally good destination match
+         D(j) == IF x.wild THEN Spec(cs[j].dst, lk.f, lk.dst) ELSE 0
      IN
-     /\ Cardinality(F) <= 1          \* an unambiguous configuration never ties
+     /\ (x.wild => Cardinality(F) <= 1)          \* an unambiguous configuration never ties (wildcard listener)
+     /\ (r = -2) = (Cardinality(F) > 1)
      /\ (r > 0 =>
-          /\ Matches(cs[r], lk)
-          /\ \A j \in 1..Len(cs) : Spec(cs[j].dst, lk.f, lk.dst) <= Spec(cs[r].dst, lk.f, lk.dst)
+          /\ Matches(cs[r], lk, x.wild)
+          /\ \A j \in 1..Len(cs) : D(j) <= D(r)
+          /\ \A j \in 1..Len(cs) : (D(j) = D(r) /\ cs[j].st = SrcType(lk)) => cs[r].st = SrcType(lk)
           /\ \A j \in 1..Len(cs) :
-               (Spec(cs[j].dst, lk.f, lk.dst) = Spec(cs[r].dst, lk.f, lk.dst) /\ cs[j].st = SrcType(lk)) => cs[r].st = SrcType(lk)
-          /\ \A j \in 1..Len(cs) :
-               (Spec(cs[j].dst, lk.f, lk.dst) = Spec(cs[r].dst, lk.f, lk.dst) /\ cs[j].st = cs[r].st)
-                  => Spec(cs[j].src, lk.f, lk.src) <= Spec(cs[r].src, lk.f, lk.src))
-     /\ (r <= 0 => (r = 0) = x.def)
-     /\ ((Len(cs) = 1 /\ Matches(cs[1], lk)) => r = 1)
-     /\ ((\A j \in 1..Len(cs) : ~Matches(cs[j], lk)) => r <= 0)
+               (D(j) = D(r) /\ cs[j].st = cs[r].st) => Spec(cs[j].src, lk.f, lk.src) <= Spec(cs[r].src, lk.f, lk.src))
+     /\ (r \in {0, -1} => (r = 0) = x.def)
+     /\ ((Len(cs) = 1 /\ Matches(cs[1], lk, x.wild)) => r = 1)
+     /\ ((\A j \in 1..Len(cs) : ~Matches(cs[j], lk, x.wild)) => r \in {0, -1})
 ====
